@@ -15,6 +15,7 @@ R(q, steps) == [q |-> q, steps |-> steps]
 PP == "products:Product"
 RP == "reviews:Product"
 AU == "accounts:User"
+RU == "reviews:User"
 \* entity numbers: products top-1..3 = 1..3, users 1234 = 1, 7777 = 2.
 \* topProducts returns top-1, top-2 (first:1 -> top-1); me = user 1234 wrote reviews of top-1, top-2;
 \* me.history = Purchase(top-1), Sale(top-2), Purchase(top-3); the review of top-3 is by user 7777.
@@ -30,7 +31,11 @@ Gen_Menu == <<
   R("{me{history{... on Purchase{product{reviews{author{history{__typename}}}}}}}}", <<S(RP, "rah", {1, 3}), S(AU, "h", {1, 2})>>),
   R("{topProducts{reviews{author{history{__typename}}}}}",                  <<S(RP, "rah", {1, 2}), S(AU, "h", {1})>>),
   R("{topProducts(first:1){reviews{product{price}}}}",                      <<S(RP, "rp", {1}), S(PP, "price", {1})>>),
-  R("{me{reviews{product{name price}}}}",                                   <<S(PP, "nameprice", {1, 2})>>)
+  R("{me{reviews{product{name price}}}}",                                   <<S(PP, "nameprice", {1, 2})>>),
+  \* me resolved by accounts first: the reviews subgraph is entered through a SINGLE entity fetch (resolve.EntityFetch)
+  R("{me{username reviews{body}}}",                                         <<S(RU, "rb", {1})>>),
+  R("{me{username reviews{product{name}}}}",                                <<S(RU, "rpu", {1}), S(PP, "name", {1, 2})>>),
+  R("{me{username reviews{product{price}}}}",                               <<S(RU, "rpu", {1}), S(PP, "price", {1, 2})>>)
 >>
 
 H(dirs) == [dirs |-> dirs, bad |-> FALSE]
@@ -62,8 +67,8 @@ CONSTANTS HeaderDraw,   \* sequence of header indexes (repeats = weight)
 Gen_HeaderDraw == <<1, 1, 2, 2, 3, 4, 5, 5, 6, 7, 8, 9, 10, 11, 12, 13, 14>>
 Gen_OutcomeDraw == <<"clean", "clean", "clean", "clean", "clean", "clean", "clean", "clean", "errs", "s500", "s404", "s300", "null1", "dead">>
 \* exhaustive small configuration: storable / default / refused header, clean or erroneous
-Gen_MenuDraw == <<1, 1, 2, 3, 4, 4, 5, 6, 6, 7, 8, 8, 9, 10, 11, 12>>
-Gen_MenuDrawSmall == <<1, 2, 5, 8>>
+Gen_MenuDraw == <<1, 1, 2, 3, 4, 4, 5, 6, 6, 7, 8, 8, 9, 10, 11, 12, 13, 14, 14, 15>>
+Gen_MenuDrawSmall == <<1, 2, 5, 14>>
 Gen_TickDraw == <<0, 0, 0, 0, 1, 1, 2>>
 Gen_TickDrawSmall == <<0, 1>>
 Gen_GetDrawSmall == <<"ok">>
